@@ -40,3 +40,17 @@ PROPS["C05"] = {
                     {"checks": 40, "shards": 8, "env": {"C05_FILLS": 400000}})],
     }],
 }
+
+PROPS["C18"] = {
+    "level": "exploration",
+    "assumptions": ["verifkit/gram reference grammars are written from the option help texts/README; time.ParseDuration is trusted for durations",
+                    "raw (unescaped) non-UTF-8 bytes in --payload are a documented don't-care"],
+    "units": [{
+        "pkg": "command",
+        "tests": [T("TestC18Ports", {"checks": 3000}, {"checks": 60000, "shards": 8}),
+                  T("TestC18Rate", {"checks": 5000}, {"checks": 100000, "shards": 4}),
+                  T("TestC18Flags", {"checks": 5000}, {"checks": 100000, "shards": 4}),
+                  T("TestC18Payload", {"checks": 4000}, {"checks": 80000, "shards": 4}),
+                  T("TestC18Exclude", {"checks": 2500}, {"checks": 50000, "shards": 8})],
+    }],
+}
